@@ -16,6 +16,7 @@ import (
 	"github.com/gdamore/tcell/v2/terminfo"
 	_ "github.com/gdamore/tcell/v2/terminfo/extended"
 
+	"verifharness/faketty"
 	"verifharness/trace"
 )
 
@@ -765,11 +766,85 @@ func inputMouse(tw *trace.Writer, rng *rand.Rand, names []string, n int, st map[
 				}
 			}
 		}
+		// a live screen: press, then the application touches the mouse modes (or suspends and resumes) before the
+		// release, then drag motion and the release - whether a button is held depends on the reports alone
+		for variant := 0; variant < 4; variant++ {
+			if err := liveMouse(tw, name, w, h, variant); err != nil {
+				return err
+			}
+			seqs++
+			reports += 3
+		}
 		if len(samples) < 2 {
 			samples = append(samples, name+": ESC[<0;5;5M ... 256 codes x M/m x boundary coordinates")
 		}
 	}
 	st["histories"], st["ops"], st["distinct"], st["samples"] = seqs, reports, reports, samples
+	return nil
+}
+
+// liveMouse drives a real screen on a fake tty: SGR press, a mode call of the application, drag motion, release.
+func liveMouse(tw *trace.Writer, name string, w, h, variant int) error {
+	ti := *terminfo.VerifEntry(name)
+	tty := faketty.New(w, h)
+	s, err := tcell.NewTerminfoScreenFromTtyTerminfo(tty, &ti)
+	if err != nil {
+		return err
+	}
+	if err := s.Init(); err != nil {
+		return err
+	}
+	defer s.Fini()
+	s.EnableMouse()
+	evc := make(chan tcell.Event, 64)
+	go func() {
+		for {
+			ev := s.PollEvent()
+			if ev == nil {
+				close(evc)
+				return
+			}
+			evc <- ev
+		}
+	}()
+	tw.Emit(trace.Ev{"ev": "MouseSeq"})
+	report := func(btn, x, y int, fin byte) {
+		b := []byte(fmt.Sprintf("\x1b[<%d;%d;%d%c", btn, x, y, fin))
+		tty.Inject(b)
+		evs := []interface{}{}
+		deadline := time.After(2 * time.Second)
+	wait:
+		for {
+			select {
+			case ev, ok := <-evc:
+				if !ok {
+					break wait
+				}
+				if _, isMouse := ev.(*tcell.EventMouse); isMouse {
+					evs = append(evs, evJSON(ev))
+					break wait
+				}
+			case <-deadline:
+				break wait
+			}
+		}
+		tw.Emit(trace.Ev{"ev": "Mouse", "s": 0, "bytes": trace.Ints(b), "cuts": []int{}, "evs": evs, "left": 0, "held": 0, "panic": false,
+			"stall": false, "form": "sgr", "btn": btn, "x": x, "y": y, "fin": int(fin), "fresh": false, "live": variant})
+	}
+	report(0, 5, 5, 'M')
+	switch variant {
+	case 0:
+		s.EnableMouse(tcell.MouseButtonEvents | tcell.MouseDragEvents)
+	case 1:
+		s.DisableMouse()
+		s.EnableMouse()
+	case 2:
+		s.Suspend()
+		s.Resume()
+	default: // nothing in between
+	}
+	report(32, 6, 5, 'M')
+	report(0, 6, 5, 'm')
 	return nil
 }
 
